@@ -11,6 +11,7 @@ CONSTANTS
   Repays = {1, 1000, 100000000, 500000000, 990000000}
   FixedSeizes = {1, 40000000}
   SeizeCap = 40000001
+  OpStates = {2}
   MaxDepth = 4
 VIEW View
 CHECK_DEADLOCK FALSE
